@@ -79,7 +79,8 @@ Example C05d_example_hypotheses :
   (lex expr_sp ≫= parse code_prec) = Some expr_tree ∧
   (ok_ast (mgr (aworld_get dx_w0 0)) expr_tree ∧ ok_ast (mgr (aworld_get dx_w 0)) expr_tree) ∧
   (refs_in (heldn (hledger (aworld_get dx_w0 0))) expr_tree ∧
-   refs_in (heldn (hledger (aworld_get dx_w 0))) expr_tree).
+   refs_in (heldn (hledger (aworld_get dx_w 0))) expr_tree) ∧
+  (max_nodes (mgr (aworld_get dx_w0 0)) = None ∧ max_nodes (mgr (aworld_get dx_w 0)) = None).
 Proof. exact astep_expr_dyn_hypotheses. Qed.
 Print Assumptions C05d_example_hypotheses.
 
